@@ -45,7 +45,9 @@ class Gen:
         return " ".join(parts)
 
     def paragraph(self, anc):
-        return self.inline(anc + ["Paragraph"]) + "\n\n"
+        # (paragraph nodes are not part of the compared structure: the property lists sections,
+        # lists, tables, styles, links - the parser also wraps lists and tables into paragraphs)
+        return self.inline(anc) + "\n\n"
 
     def lst(self, anc, prefix="", depth=0):
         kind = self.rnd.choice("*#")
@@ -77,18 +79,17 @@ class Gen:
         out = ""
         for _ in range(self.rnd.randint(1, 3)):
             k = self.rnd.random()
-            if k < 0.45:
+            if k < 0.5:
                 out += self.paragraph(anc)
-            elif k < 0.65:
+            elif k < 0.72:
                 out += self.lst(anc)
-            elif k < 0.8:
+            elif k < 0.9:
                 out += self.table(anc)
-            elif k < 0.87:
-                out += self.pre(anc)
-            elif level < 4 and self.n < self.size:
-                out += self.section(anc, level + 1)
             else:
-                out += self.paragraph(anc)
+                out += self.pre(anc)
+        # sub-sections come last: a section swallows everything up to the next heading of <= level
+        while level < 4 and self.n < self.size and self.rnd.random() < 0.4:
+            out += self.section(anc, level + 1)
         return out
 
     def section(self, anc, level):
@@ -131,7 +132,7 @@ def tree_words(tree):
             return "ItemList-ol" if getattr(n, "numbered", False) else "ItemList-ul"
         if c == "ArticleLink":
             return f"ArticleLink:{n.target}"
-        if c in ("Paragraph", "Item", "Table", "Row", "Cell", "Strong", "Emphasized", "NamedURL", "Reference", "PreFormatted"):
+        if c in ("Item", "Table", "Row", "Cell", "Strong", "Emphasized", "NamedURL", "Reference", "PreFormatted"):
             return c
         return None
 
